@@ -1,5 +1,13 @@
 mod common;
 mod lexmc;
+mod run;
+mod kast;
+mod kval;
+mod kref;
+mod kfmt;
+mod knative;
+mod progmc;
+mod fam_core;
 
 use common::Args;
 
@@ -13,6 +21,15 @@ fn main() {
     let args = Args::parse(argv);
     let code = match engine.as_str() {
         "lexmc" => lexmc::run(&args),
+        "progmc-core" => progmc::run_profile(
+            &args,
+            run::RunCfg::default(),
+            &fam_core::generate,
+            &fam_core::classify,
+            None,
+            "C01 families: ops(1) full alphabet x 16 contexts x {top level, function body}; ops(2) reduced alphabet; boundary leaves; assign sequences <= 2 (thorough 3); every range form; index/slice of every container kind size 0..3; if/switch/loops with iteration counts 0..3",
+            &[],
+        ),
         other => {
             eprintln!("unknown engine {other}");
             2
